@@ -2,6 +2,7 @@
   C16 — parameter, header and items validators follow Swagger simple-schema semantics.
 -/
 import VM.Impl.Simple
+import VM.Proofs.SimpleProof
 import VM.Expect
 namespace VM.C16
 open VM GoVal Simple Generated Expect
@@ -16,13 +17,53 @@ theorem nil_not_validated (O : Oracles) (root : Root) (s : SSchema) (p : Bool) :
     validate O root s .nil p = (true, false) := rfl
 
 /-- first-error exit: a type error decides the verdict, whatever the later groups would say -/
-theorem type_error_exits (O : Oracles) (p : Bool) (fuel : Nat) (root : Root) (rootFmt : String) (b : SBase)
-    (req ae : Bool) (items : Option SSchema) (x : Bool) (t : String) (ht : b.types = [t]) (hne : t ≠ "boolean")
-    (hf : b.format = "") (ht0 : t ≠ "") :
-    validateAux O p (fuel + 1) root rootFmt (.mk b req ae items) (.bool x) = (false, false) := by
-  have h1 : (t == "boolean") = false := by simpa using hne
-  have h2 : (t != "") = true := by simpa using ht0
-  simp [validateAux, ht, hf, numKindOf, typeErrOther, h1, h2]
+theorem type_error_exits (O : Oracles) (p : Bool) (fuel : Nat) (root : Root) (rootFmt : String) (s : SSchema) (v : GoVal)
+    (h : typeBad O s.base v = true) :
+    validateAux O p (fuel + 1) root rootFmt s v = (false, false) := by
+  obtain ⟨b, req, ae, items⟩ := s
+  simp only [SSchema.base] at h
+  simp [validateAux, h]
+
+/-- **C16, structure**: the chain composes its six slots, and the recursion through `items`, as the simple-schema
+    specification composes its constraints — for every nesting depth — whenever the leaf checks agree at every
+    (level, value) pair reached (`LeafAgree`: one Boolean equation per pair). -/
+theorem C16_chain_composes (O : Oracles) (root : Root) (s : SSchema) (v : GoVal)
+    (hA : LeafAgree O s.base.format (s.depth + 1) s v) :
+    validate O root s v = (specValid O s v, false) := validate_eq_spec O root s v hA
+
+/-- **C16 on the deviation-free fragment** (strings, booleans, signed integers with integral bounds within int64, arrays
+    of these nested to any depth, no `format`, enum members of the value's own kind): parameter, header and items
+    validators accept exactly what the simple-schema specification accepts, and do not panic. Outside this fragment lie
+    exactly the listed deviations (C13 fractional bounds / unsigned and float carriers, C14 enum conversions and
+    cross-type equality, C16 formats). -/
+theorem C16_fragment (O : Oracles) (root : Root) (s : SSchema) (v : GoVal)
+    (h0 : O.fmtKnown "" = false) (hroot : s.base.format = "") (hF : Frag O (s.depth + 1) s v) :
+    validate O root s v = (specValid O s v, false) := validate_eq_spec_frag O root s v h0 hroot hF
+
+/-- the fragment is inhabited by a two-level case: an array (1-3 unique items) of arrays of bounded integers -/
+def sNested : SSchema :=
+  .mk { types := ["array"], minItems := some 1, maxItems := some 3 } true false
+    (some (.mk { types := ["array"], uniqueItems := false } false false
+      (some (.mk { types := ["integer"], minimum := some 0, maximum := some 10, multipleOf := some 2,
+                   enum := [.num 2, .num 4, .num 11] } false false none))))
+def vNested : GoVal := .slice "interface" false [.slice "interface" false [.int 32 2, .int 64 4], .slice "interface" false []]
+
+example : Frag Odate0 (sNested.depth + 1) sNested vNested := by
+  simp only [sNested, vNested, SSchema.depth, Frag]
+  refine ⟨by simp, by simp, by simp, ?_⟩
+  intro x hx _
+  simp only [List.mem_cons, List.not_mem_nil, or_false] at hx
+  rcases hx with rfl | rfl
+  · refine ⟨by simp, by simp, by simp, ?_⟩
+    intro y hy _
+    simp only [List.mem_cons, List.not_mem_nil, or_false] at hy
+    have hb0 : IntBound (some (0 : Rat)) := ⟨0, by simp, by decide⟩
+    have hb10 : IntBound (some (10 : Rat)) := ⟨10, by simp, by decide⟩
+    have hb2 : IntBound (some (2 : Rat)) := ⟨2, by simp, by decide⟩
+    rcases hy with rfl | rfl
+    · exact ⟨by simp, by decide, hb10, hb0, hb2, by simp⟩
+    · exact ⟨by simp, by decide, hb10, hb0, hb2, by simp⟩
+  · exact ⟨by simp, by simp, by simp, by simp⟩
 
 /-! witnesses of the open deviations (known findings) -/
 
@@ -31,6 +72,7 @@ def sArrDate : SSchema :=
 def Odate : Oracles :=
   { re := fun _ _ => some false, fmtKnown := fun f => f == "date", fmt := fun _ s => s == "2020-01-01",
     isIntTol := fun n => n.isInt, mulOfTol := fun n m => (n / m).isInt }
+def Odate0 : Oracles := { Odate with fmtKnown := fun f => f == "date" }
 def notADate : GoVal := .slice "interface" false [.str "x".toUTF8.toList]
 
 /-- the format of items is only looked at when the parameter/header itself carries a registered
